@@ -53,6 +53,7 @@ pub fn do_request(db: &World, req: &Req) -> Outcome {
                         q_maker_lru::accumulated::<Diag>(hdb, k)
                     }
                     Kind::Maker => q_maker::accumulated::<Diag>(hdb, k),
+                    Kind::Fix if ctx.prog.nodes[*n].lru_fix => q_fix_lru::accumulated::<Diag>(hdb, k),
                     Kind::Fix => q_fix::accumulated::<Diag>(hdb, k),
                     Kind::FixJ => q_fixj::accumulated::<Diag>(hdb, k),
                     Kind::Fb => q_fb::accumulated::<Diag>(hdb, k),
@@ -125,6 +126,8 @@ pub struct Runner {
     pub writes: u64,
     /// correctly rejected writes to never-change fields / never-change synthetic writes
     pub rejections: u64,
+    /// number of retained references re-read so far (C23)
+    pub retained_checked: u64,
 }
 
 #[derive(Debug, Clone, PartialEq, Eq)]
@@ -151,6 +154,7 @@ impl Runner {
             violations: Vec::new(),
             writes: 0,
             rejections: 0,
+            retained_checked: 0,
         }
     }
 
@@ -170,6 +174,10 @@ impl Runner {
     /// Applies a write step to the database and to the model. The model follows what the
     /// implementation is specified to do (a rejected never-change write leaves values unchanged).
     pub fn write(&mut self, step: &Step) -> WriteResult {
+        // C23: every reference handed out since the last write must still read the same value
+        self.retained_checked += self.ctx.retained.lock().unwrap().len() as u64;
+        let bad = self.ctx.check_retained();
+        self.violations.extend(bad);
         self.ctx.log.push(Rec::WriteBegin(0));
         self.writes += 1;
         let r = match step {
